@@ -95,6 +95,7 @@ def gen_media(ch, spec):
     cfg["pts0"] = 0
     cfg["wrap"] = {"seq": ch.randint("cfg", 8, 300, 20), "ts": ch.randint("cfg", 0, 600000, 9),
                    "rtx": ch.randint("cfg", 0, 40, 5)}
+    cfg["hit_at"] = cfg["wrap"]["seq"] + 1      # targeted losses sit where the second run wraps
     return cfg, ops
 
 
